@@ -1,9 +1,11 @@
 #!/bin/sh
 # usage: lib/confirm_seed.sh <worktree> : re-verifies a seeded change independently of its author:
-#  (1) with the change: test suite 74/74, demo fails; (2) change reverted: demo passes.  Prints a JSON-ish summary.
+#  (1) with the change (OUT/patch.diff applied to a clean checkout): test suite 74/74, demo fails;
+#  (2) change reverted: demo passes.  Prints a one-line summary.  (No git stash: the stash is shared between worktrees.)
 W=$1; cd $W || exit 9
 CMD=$(python3 -c "import json;print(json.load(open('OUT/meta.json'))['demo_cmd'])")
+git checkout -q -- src && git apply OUT/patch.diff || { echo "worktree=$W patch does not apply to a clean checkout"; exit 8; }
 make > /dev/null 2>&1; T=$(make -k check 2>&1 | grep -E "^# (PASS|FAIL|ERROR):" | tr -s ' ' | tr '\n' ' ')
 ( eval "$CMD" ) > OUT/confirm_with.log 2>&1; RC_WITH=$?
-git stash -q -- src; ( eval "$CMD" ) > OUT/confirm_without.log 2>&1; RC_WITHOUT=$?; git stash pop -q
+git apply -R OUT/patch.diff; ( eval "$CMD" ) > OUT/confirm_without.log 2>&1; RC_WITHOUT=$?; git apply OUT/patch.diff
 echo "worktree=$W tests_with_change=[$T] demo_with_change_exit=$RC_WITH demo_without_change_exit=$RC_WITHOUT"
